@@ -81,6 +81,26 @@ func genConcCase(rng *simrt.Rng, o *ConcOpts) *ConcCase {
 					op.Load.Stall = true
 				}
 			}
+			if o.AsyncClock && op.Kind == "advance" {
+				// steps that land on / around the deadlines of entries written a moment ago
+				switch rng.Intn(7) {
+				case 0:
+					op.D = cfg.ExpD
+				case 1:
+					op.D = cfg.ExpD - 1
+				case 2:
+					op.D = cfg.ExpD/2 + 1
+				case 3:
+					op.D = cfg.ExpD + int64(rng.Intn(3))
+				case 4:
+					op.D = cfg.ExpD/3 + 1
+				default:
+					op.D = 1 + int64(rng.Intn(2_200_000_000))
+				}
+				if op.D <= 0 {
+					op.D = 1
+				}
+			}
 			ops = append(ops, op)
 			if o.Rounds && (i+1)%roundLen == 0 && i+1 < n {
 				ops = append(ops, Op{Kind: "barrier"})
@@ -156,7 +176,7 @@ func (e *concEngine) Run(a *agg, spec *PropSpec, seed uint64) {
 		o = &deep
 	}
 	cc := genConcCase(&rng, o)
-	cc.Mode = &ConcMode{Lin: o.Lin, Rounds: o.Rounds, NoCleanup: o.NoCleanup, SweepCheck: o.SweepCheck}
+	cc.Mode = &ConcMode{Lin: o.Lin, Rounds: o.Rounds, NoCleanup: o.NoCleanup, SweepCheck: o.SweepCheck, AsyncClock: o.AsyncClock}
 	srng := simrt.NewRng(seed, 21)
 	if a.horizon < 200 {
 		a.horizon = 1500
